@@ -106,11 +106,19 @@ func TestWorker(t *testing.T) {
 	thorough := os.Getenv("VERIF_TIER") == "thorough"
 	outDir := os.Getenv("VERIF_OUT")
 	replayDir := os.Getenv("VERIF_REPLAYS")
-	known := map[string]bool{}
+	var knownPats []string
 	for _, k := range strings.Split(os.Getenv("VERIF_KNOWN"), "\n") {
 		if k != "" {
-			known[k] = true
+			knownPats = append(knownPats, k)
 		}
+	}
+	isKnown := func(sig string) bool {
+		for _, p := range knownPats {
+			if p == sig || (strings.HasSuffix(p, "*") && strings.HasPrefix(sig, strings.TrimSuffix(p, "*"))) {
+				return true
+			}
+		}
+		return false
 	}
 	maxNew := int(envInt("VERIF_MAXNEW", 3))
 
@@ -177,7 +185,7 @@ func TestWorker(t *testing.T) {
 				continue
 			}
 			seenSig[v.Sig] = true
-			if known[v.Sig] {
+			if isKnown(v.Sig) {
 				st.Known[v.Sig]++
 				continue
 			}
